@@ -7,6 +7,7 @@ package mboxkit
 
 import (
 	"bytes"
+	crand "crypto/rand"
 	"crypto/sha256"
 	"encoding/hex"
 	"fmt"
@@ -191,11 +192,20 @@ func MkTemp(tag string) string {
 	if tempBase == "" {
 		tempBase = TempBase()
 	}
-	d, err := os.MkdirTemp(tempBase, fmt.Sprintf("%s%d-%s-", shmPrefix, os.Getpid(), tag))
-	if err != nil {
-		panic("mboxkit: cannot create scratch dir: " + err.Error())
+	// fixed-width names: some files the mailbox writes contain their own path (X-FilePath), and the
+	// crash points of C11 are byte offsets into such files - they must not depend on name lengths
+	for i := 0; ; i++ {
+		var rnd [6]byte
+		crand.Read(rnd[:])
+		d := filepath.Join(tempBase, fmt.Sprintf("%s%07d-%s-%s", shmPrefix, os.Getpid(), tag, hex.EncodeToString(rnd[:])))
+		err := os.Mkdir(d, 0o700)
+		if err == nil {
+			return d
+		}
+		if !os.IsExist(err) || i > 100 {
+			panic("mboxkit: cannot create scratch dir: " + err.Error())
+		}
 	}
-	return d
 }
 
 // Janitor removes scratch directories left behind by worker processes that no longer exist.
